@@ -39,8 +39,9 @@ SMALL = {"quick": (-2, 5), "thorough": (-3, 6)}
 BOUNDS = {
     "quick": {"programs": "corpus/pyprogs.py: 149 enumerated (every operator x operand shape, all operator pairs, every "
                           "comparison, and/or nestings, if/elif/else, 4 loop skeletons x 12 body kinds incl. break/continue/"
-                          "early return/nested loops, loop-variable uses, calls) + 60 seeded random programs, nesting depth <= 2, "
-                          "two int parameters, optional helper function",
+                          "early return/nested loops, loop-variable uses, calls) + 110 seeded random programs of the grammar "
+                          "(nesting depth <= 2, two int parameters, optional helper function; random programs keep branch "
+                          "conditions linear in the arguments and have static solver cost <= 3, see pyprogs.cost)",
               "symbolic": "both arguments; full range [-2**63, 2**63) unless the parameter reaches a loop bound, a loop "
                           "condition or a condition/call inside a loop (syntactic taint, props/C36.py:loop_tainted): then [-2, 5]",
               "unwinding": "4000 IR instructions, 300 decisions per path; cut paths are counted (none expected)"},
@@ -49,15 +50,20 @@ BOUNDS = {
 }
 OUTSIDE = ["float arithmetic (the IR reference semantics has no floats) and str parameters",
            "programs outside the generated family; functions that CPython ends with an exception or without a return value",
-           "constructs ppci rejects with a CompilerError diagnostic (%, unary minus, not, chained comparisons, range with a step: probed, counted as rejected)",
+           "constructs ppci rejects with a CompilerError diagnostic (%, unary minus, not, range with a step: probed, counted as "
+           "rejected; chained comparisons, true division of ints)",
            "loop-related argument values outside the small interval (trip counts beyond the unwinding bound)",
            "executions in which some integer value leaves 64 bits (the property's premise)",
            "the machine-code back ends / ir_to_python (the IR is judged by its reference semantics)"]
 ASSUMPTIONS = ["IR reference semantics ref/irsem.py (i64 wrap-around, `/` `%` truncate toward zero, signed comparisons)",
-               "CPython is the oracle for everything but integer arithmetic itself, which is symx's exact SymInt model of Python "
-               "ints (validated on every path by a concrete shim-free re-execution with real ints)",
-               "ref/pyoracle.py wraps arithmetic results in a value-preserving range check and binds `range` to a lazy "
-               "iterator with the language-reference meaning of range(a[, b])"]
+               "CPython is the oracle for control flow, evaluation order, scoping, calls and operator dispatch; the integers "
+               "themselves are symx's exact SymInt model of Python ints, validated on every path by a concrete shim-free "
+               "re-execution of the same function with real ints",
+               "ref/pyoracle.py routes every binary operation / comparison through CPython's operator protocol, states the "
+               "64-bit premise on the result (assumed, joins the path condition), re-expresses in-range results over the "
+               "64-bit operand patterns (arithmetic identities) and binds `range` to a lazy iterator with the "
+               "language-reference meaning of range(a[, b])",
+               "props/C36.py:_Sem returns the term last stored to a constant address instead of re-assembling it from byte slices"]
 SHIMS_USED = ["isinstance"]
 RULE = ("one evaluation = one program: python_to_ir runs once, then the IR reference semantics and CPython (on proxies) are "
         "compared by the solver for all argument values on every path; non-trivial = more than one path")
